@@ -31,6 +31,9 @@ class Undecided(Exception):
     pass
 
 
+_CACHE = None
+
+
 def log(*a):
     print(*a, file=sys.stderr, flush=True)
 
@@ -369,6 +372,8 @@ def main(argv):
         print(__doc__)
         return 2
     pid = argv[0]
+    if pid == '--all':
+        return main_all(argv[1:])
     tier = os.environ.get('VERIF_TIER', 'quick')
     repo = '/repo'
     keep = False
@@ -428,21 +433,26 @@ def _main(pid, P, tier, repo, seed, scratch, ev_path, t0):
     units = P.get('units', [])
     pre_assumptions = scan_prelude(os.path.join(VERIF, 'spec', 'prelude.rs'))
     urs = []
+    cache = _CACHE if _CACHE is not None else {}
     with ThreadPoolExecutor(max_workers=8) as ex:
-        fut_la = ex.submit(check_la, scratch)
-        for u in units:
-            urs.append(UnitRun(u, repo, scratch))
+        if 'la' not in cache:
+            cache['la'] = ex.submit(check_la, scratch)
         extra = []
         if seed:
             extra += ['--smt-option', 'smt.random_seed=%d' % (seed % 100000)]
         if tier == 'thorough':
             extra += ['--rlimit', '40']
-        futs = [ex.submit(verus, ur.file, scratch, list(extra)) for ur in urs]
-        pfuts = [ex.submit(check_probes, ur) for ur in urs]
+        for u in units:
+            if ('ur', u) not in cache:
+                ur = UnitRun(u, repo, scratch)
+                cache[('ur', u)] = ur
+                cache[('verus', u)] = ex.submit(verus, ur.file, scratch, list(extra))
+                cache[('probe', u)] = ex.submit(check_probes, ur)
+            urs.append(cache[('ur', u)])
         kfut = ex.submit(vpkani.run_harnesses, P, tier, repo, pid)
-        la_verified, la_wall = fut_la.result()
-        results = [f.result() for f in futs]
-        probes = [f.result() for f in pfuts]
+        la_verified, la_wall = cache['la'].result()
+        results = [cache[('verus', u)].result() for u in units]
+        probes = [cache[('probe', u)].result() for u in units]
         kani = kfut.result()
 
     obligations, discharged = 0, 0
@@ -596,3 +606,43 @@ def clause_text(ur, mid):
                 j += 1
             return txt[:400]
     return mid
+
+
+def main_all(argv):
+    """development / acceptance helper: decide every claimed property from ONE verification run of each unit"""
+    global _CACHE
+    repo = '/repo'
+    only = None
+    i = 0
+    while i < len(argv):
+        if argv[i] == '--repo':
+            repo = argv[i + 1]; i += 2
+        elif argv[i] == '--only':
+            only = argv[i + 1].split(','); i += 2
+        else:
+            i += 1
+    props = load_props()
+    scratch = tempfile.mkdtemp(prefix='vpcheck-all-')
+    _CACHE = {}
+    out = {}
+    evdir = tempfile.mkdtemp(prefix='vpcheck-ev-')
+    try:
+        import io, contextlib
+        for pid in sorted(props):
+            if only and pid not in only:
+                continue
+            buf = io.StringIO()
+            t0 = time.time()
+            try:
+                with contextlib.redirect_stdout(buf):
+                    rc = _main(pid, props[pid], 'quick', repo, 0, scratch, os.path.join(evdir, pid + '.json'), t0)
+            except Undecided as e:
+                rc = 2
+                buf.write('UNDECIDED %s' % e)
+            out[pid] = rc
+            txt = buf.getvalue().strip().replace('\n', ' | ')
+            print('%s rc=%d %s' % (pid, rc, txt[:300]))
+    finally:
+        shutil.rmtree(scratch, ignore_errors=True)
+        shutil.rmtree(evdir, ignore_errors=True)
+    return 0
